@@ -334,6 +334,7 @@ func (n *node) clone() *node {
 }
 
 type cell struct {
+	viewVal *viewInfo // a local slice variable holding a view (see viewInfo)
 	ptrVal *ptrv // a local variable of pointer type (e.g. a captured receiver): the pointer it holds
 	id    int
 	param int // >= 0: the pointee of pointer parameter #param; -1: local
@@ -353,7 +354,18 @@ type ptrv struct {
 	path []step
 }
 
+// viewInfo: a slice that is a window [lo, lo+length) of an array, all three known at translation time (`e.scratch[4:4]`)
+type viewInfo struct {
+	arr    *ptrv
+	lo     int64
+	length int64
+	cap    int64
+	elemTy types.Type
+}
+
 type sym struct {
+	view  *viewInfo // see viewInfo; appending within the capacity writes into the array
+	elems []string  // a list literal's elements
 	emptyFuncs bool // a slice of function values known to be empty (variadic options not given)
 	binds     []sym // a closure's captured variables (pointers to their storage)
 	backLoc   loopLoc // for a backed slice: the array location and its generation when the slice was taken; the slice value
@@ -406,7 +418,7 @@ func (s *state) clone() *state {
 		c.env[k] = v
 	}
 	for k, v := range s.cells {
-		c.cells[k] = &cell{id: v.id, param: v.param, root: v.root.clone(), ptrVal: v.ptrVal}
+		c.cells[k] = &cell{id: v.id, param: v.param, root: v.root.clone(), ptrVal: v.ptrVal, viewVal: v.viewVal}
 	}
 	if s.frozen != nil {
 		c.frozen = map[loopLoc]int{}
@@ -726,6 +738,21 @@ func leanString(x string) string {
 	return "(Go.strOfBytes [" + strings.Join(parts, ", ") + "])"
 }
 
+// viewSym: the slice value of a view, read from the array as it is now
+func (c *ctx) viewSym(s *state, v *viewInfo, ty types.Type) sym {
+	ap := &ptrv{cell: s.cells[v.arr.cell.id], path: v.arr.path}
+	if ap.cell == nil {
+		fail("view of consumed memory")
+	}
+	whole := c.load(ap)
+	key := ""
+	if len(ap.path) > 0 {
+		key = ap.path[0].name
+	}
+	return sym{expr: fmt.Sprintf("(Go.slice (%s).toList %d %d)", whole, v.lo, v.lo+v.length), typ: ty, backed: true, view: v,
+		backLoc: loopLoc{ap.cell.id, key}, backGen: s.frozen[loopLoc{ap.cell.id, key}], backPtr: ap, backLo: fmt.Sprint(v.lo)}
+}
+
 // cur: the current value of a slice parameter that lives in a cell
 func (c *ctx) cur(s *state, v sym) sym {
 	if v.wcell > 0 {
@@ -805,6 +832,13 @@ func constInt(v ssa.Value) (int64, bool) {
 	}
 	n, exact := constant.Int64Val(constant.ToInt(k.Value))
 	return n, exact
+}
+
+func constIntOrNil(v ssa.Value, dflt int64) (int64, bool) {
+	if v == nil {
+		return dflt, true
+	}
+	return constInt(v)
 }
 
 func log2(n int64) int64 {
@@ -1136,6 +1170,10 @@ func (c *ctx) instr(s *state, in ssa.Instruction, d int) {
 			if cl == nil {
 				fail("load from consumed memory")
 			}
+			if cl.viewVal != nil && len(p.ptr.path) == 0 {
+				s.env[x] = c.viewSym(s, cl.viewVal, x.Type())
+				return
+			}
 			if cl.ptrVal != nil && len(p.ptr.path) == 0 {
 				tc := s.cells[cl.ptrVal.cell.id]
 				if tc == nil {
@@ -1310,6 +1348,10 @@ func (c *ctx) instr(s *state, in ssa.Instruction, d int) {
 		if v.ptr != nil || v.fn != nil || v.iface || v.boxed {
 			fail("storing a pointer, function or interface value")
 		}
+		if v.view != nil && pp.cell.param == -1 && len(pp.path) == 0 {
+			pp.cell.viewVal = v.view
+			return
+		}
 		if v.backed {
 			fail("storing a slice that aliases an array")
 		}
@@ -1386,6 +1428,11 @@ func (c *ctx) instr(s *state, in ssa.Instruction, d int) {
 				r.backed = true
 				r.backLoc, r.backGen = loopLoc{pp.cell.id, key}, s.frozen[loopLoc{pp.cell.id, key}]
 				r.backPtr, r.backLo = pp, lo
+				if lov, ok1 := constIntOrNil(x.Low, 0); ok1 {
+					if hiv, ok2 := constIntOrNil(x.High, arr.Len()); ok2 && lov <= hiv && hiv <= arr.Len() {
+						r.view = &viewInfo{arr: &ptrv{cell: pp.cell, path: pp.path}, lo: lov, length: hiv - lov, cap: arr.Len() - lov, elemTy: arr.Elem()}
+					}
+				}
 				s.env[x] = r
 				return
 			}
@@ -1399,6 +1446,9 @@ func (c *ctx) instr(s *state, in ssa.Instruction, d int) {
 			// the slice aliases the array; later stores into the array would be visible through it: forbid by dropping the cell
 			delete(s.cells, pp.cell.id)
 			bind(x, "(["+strings.Join(parts, ", ")+"] : "+c.t.leanType(x.Type())+")")
+			r := s.env[x]
+			r.elems = parts
+			s.env[x] = r
 		case *types.Slice:
 			v := c.val(s, x.X)
 			lo, hi := "0", "("+v.expr+").length"
@@ -1482,6 +1532,36 @@ func (c *ctx) call(s *state, x *ssa.Call, d int) {
 		switch b.Name() {
 		case "append":
 			a0, a1 := c.val(s, com.Args[0]), c.val(s, com.Args[1])
+			if a0.view != nil {
+				// appending to a window of an array, everything known: within the capacity the elements are written INTO the
+				// array and the window grows
+				if a1.elems == nil {
+					fail("append to a view of an array of a list that is not a literal")
+				}
+				v := a0.view
+				n := int64(len(a1.elems))
+				if v.length+n > v.cap {
+					fail("append to a view of an array beyond its capacity")
+				}
+				ap := &ptrv{cell: s.cells[v.arr.cell.id], path: v.arr.path}
+				if ap.cell == nil {
+					fail("view of consumed memory")
+				}
+				for j, e := range a1.elems {
+					q := &ptrv{cell: ap.cell, path: append(append([]step{}, ap.path...), step{field: -1, idx: fmt.Sprint(v.lo + v.length + int64(j)), cidx: v.lo + v.length + int64(j), elemTy: v.elemTy})}
+					c.store(q, e)
+				}
+				key := ""
+				if len(ap.path) > 0 {
+					key = ap.path[0].name
+				}
+				if _, ok := s.frozen[loopLoc{ap.cell.id, key}]; ok {
+					s.frozen[loopLoc{ap.cell.id, key}]++
+				}
+				nv := &viewInfo{arr: v.arr, lo: v.lo, length: v.length + n, cap: v.cap, elemTy: v.elemTy}
+				s.env[x] = c.viewSym(s, nv, x.Type())
+				return
+			}
 			if a0.backed {
 				fail("append to a slice that aliases an array (the written elements would be visible through the array)")
 			}
@@ -2247,7 +2327,7 @@ func (c *ctx) inline(s *state, call *ssa.Call, callee *ssa.Function, binds []sym
 	}
 	for _, f := range c.frames {
 		if f.fn == callee {
-			fail("recursive closure")
+			fail("recursive expansion")
 		}
 	}
 	if callee.Blocks == nil {
@@ -2278,7 +2358,9 @@ func (c *ctx) inline(s *state, call *ssa.Call, callee *ssa.Function, binds []sym
 	}
 	c.frames = append(c.frames, fr)
 	c.prefix = fmt.Sprintf("%sk%d_", fr.prefix, c.inlineSeq)
-	c.block(s, callee.Blocks[0], nil, onPath, d)
+	// (the expanded body has a path of its own: the rest of the caller is translated INSIDE its return leaves, and may
+	// expand the same function again)
+	c.block(s, callee.Blocks[0], nil, map[*ssa.BasicBlock]bool{}, d)
 	c.prefix = fr.prefix
 	c.frames = c.frames[:len(c.frames)-1]
 }
@@ -2338,6 +2420,21 @@ func (c *ctx) runInstrs(s *state, b *ssa.BasicBlock, start int, onPath map[*ssa.
 			}
 		}
 		if call, ok := in.(*ssa.Call); ok && !call.Common().IsInvoke() {
+			if f := call.Common().StaticCallee(); f != nil && len(f.FreeVars) == 0 && f.Blocks != nil {
+				for _, a := range call.Common().Args {
+					if _, isPtr := a.Type().Underlying().(*types.Pointer); !isPtr {
+						continue
+					}
+					if av, ok := s.env[a]; ok && av.ptr != nil && len(av.ptr.path) == 0 {
+						if cl := s.cells[av.ptr.cell.id]; cl != nil && cl.viewVal != nil {
+							// a callee that works on a view of one of our arrays is expanded in place (its appends are writes
+							// into that array)
+							c.inline(s, call, f, nil, b, idx, onPath, d)
+							return
+						}
+					}
+				}
+			}
 			if _, isB := call.Common().Value.(*ssa.Builtin); !isB && call.Common().StaticCallee() == nil {
 				if v := c.val(s, call.Common().Value); v.fn != nil && len(v.fn.FreeVars) > 0 {
 					c.inline(s, call, v.fn, v.binds, b, idx, onPath, d)
